@@ -45,9 +45,9 @@ CHECKS = {
                 technique="bounded model checking in z3 of control-flow automata compiled from the real _terminate_execution/serve/integrate_as_primary_thread/executetask code with a model clock for the bounded waits",
                 text="Bounded model checking of the worker-side termination protocol after loss of the initiator: every explored state reaches 'process gone' within a model time of 15 s. The operating system (signals, real kills) is a stub; the claim is about the protocol.",
                 note="trusted: translator (validated per run), primitive models, SIGINT/os._exit/body stubs and the time rule listed in the evidence, z3; real processes and signals are outside"),
-    "C02": dict(cat="other", ref="DESIGN.md §4 C02 (E1 variant, see §11)", technique="CrossHair symbolic execution of the real send path and the peer's receive path with the senders' interleaving as a symbolic merge order of whole frames",
-                text="Bounded symbolic check: for every order-preserving interleaving of two senders' frames (symbolic), symbolic item values and chunking, the peer's per-channel sequences equal the per-channel wire order. Interleavings are at frame (send-call) granularity; preemption inside a send is C08's schedule part.",
-                note=E1_NOTE + "; queue.Queue thread-safety and frame atomicity are assumed"),
+    "C02": dict(cat="other", ref="DESIGN.md §4 C02, §11", technique="E1: CrossHair symbolic execution of the real send path and the peer's receive path with the senders' interleaving as a symbolic merge order of whole frames; E2: bounded model checking (z3) of the receiver thread delivering two channels' items against one receiving thread per channel",
+                text="Bounded symbolic check over every order-preserving interleaving of two senders' frames with symbolic items and chunking, plus bounded model checking over all schedules of receiver thread vs. per-channel receivers (right channel, in order, exactly once). Related schedule parts: setcallback hand-over (C10 E2), frame atomicity of concurrent senders (C08 E2).",
+                note=E1_NOTE + "; E2 part trusts the translator (validated per run), the queue/map/lock models and z3"),
     "C03": dict(cat="other", ref="DESIGN.md §4 C03, §11", technique="E1: CrossHair symbolic execution of the close protocol on both sides over histories; E2: bounded model checking (z3) of several receivers blocked in receive()/waitclose() racing the receiver thread's last item and close / connection loss, counterexamples replayed on the real classes",
                 text="Bounded symbolic check of close-after-data ordering and post-close behaviour of both sides (five close causes), plus bounded model checking over all schedules of 2-3 blocked receivers and a waitclose caller.",
                 note=E1_NOTE + "; E2 part trusts the translator (validated per run), the queue/map/lock/event models and z3"),
